@@ -106,6 +106,18 @@ func runE(t *vlib.T) {
 				loops := strings.Count(chain, "F")
 				return verdict("E", src, ctx, got, m.out.String(), true, fmt.Sprintf("E:depth%d:loops%d", len(chain), loops))
 			})
+			// round 4: the "new" variable is not in the context but is an engine global (never read
+			// before the assignment, so its old value must not appear anywhere)
+			t.Case("E/g/"+chain, func() *vlib.Outcome {
+				src := eSrc(chain, 0, 0, nil)
+				m := &eMachine{}
+				m.run(chain, 0)
+				globals := map[string]interface{}{"n": "GLOBAL"}
+				ctx := map[string]interface{}{}
+				got := hRender(globals, ctx, nil, src)
+				loops := strings.Count(chain, "F")
+				return hVerdict("E", src, nil, globals, ctx, got, m.out.String(), true, fmt.Sprintf("E:g:depth%d:loops%d", len(chain), loops))
+			})
 		}
 		rec("")
 	}
